@@ -22,10 +22,14 @@ func TestC10_Sched(t *testing.T) {
 	defer runtime.GOMAXPROCS(runtime.GOMAXPROCS(0))
 	baseSeed, _ := strconv.ParseUint(os.Getenv("VERIF_SEED"), 10, 64)
 	forFFTs(t, func(t *testing.T, x inst.FFT) {
-		test := "C10_Sched/" + x.Name()
+		test := tname("C10_Sched", x)
 		f := x.F()
 		q := f.Q()
-		for _, logn := range []int{5, 6, 8, 9, 10, 11, 12} {
+		sizes, procsList, tasksList := []int{5, 6, 8, 9, 10, 11, 12}, []int{1, 2, 3, 8, 16}, append([]int{0}, taskList...)
+		if os.Getenv("VERIF_C10_SCHED") == "lite" { // the CPU-path variant jobs: a thinner grid over the same dimensions
+			sizes, procsList, tasksList = []int{5, 8, 9, 11}, []int{2, 16}, []int{0, 1, 3, 64}
+		}
+		for _, logn := range sizes {
 			n := 1 << uint(logn)
 			seed := sm64(baseSeed*1000003 + uint64(logn))
 			in := make([]*big.Int, n)
@@ -77,7 +81,7 @@ func TestC10_Sched(t *testing.T) {
 						want[[2]bool{coset, inverse}] = e
 					}
 				}
-				for _, procs := range []int{1, 2, 3, 8, 16} {
+				for _, procs := range procsList {
 					runtime.GOMAXPROCS(procs)
 					for pi, pre := range []bool{true, false} {
 						cd := cds[pi]
@@ -86,7 +90,7 @@ func TestC10_Sched(t *testing.T) {
 								continue
 							}
 							for _, dec := range []inst.Decimation{inst.DIT, inst.DIF} {
-								for _, tasks := range append([]int{0}, taskList...) {
+								for _, tasks := range tasksList {
 									for _, inverse := range []bool{false, true} {
 										c := cfg{logn: logn, dec: dec, coset: coset, pre: pre, custom: custom, tasks: tasks, inverse: inverse}
 										out := cd.apply(x, vin, c)
